@@ -28,8 +28,9 @@ func init() {
 				Procs:    16,
 				Rule: "case = one tree shape (beta in {0,250,600,900,1000,...}, built by a C01-style history or bulk New) with: Cursor(k) for EVERY key and for absent keys around every key; full forward (Min, Next...) and backward (Max, Prev...) sweeps with HasNext/HasPrev before each move; subtree checks at every node (everything through Left smaller, through Right larger, Cursor.Inorder == subtree keys ascending, early stop, the same cursor scanned again from inside its own scan (re-entrancy; cursors obtained by Cursor(k) and by moves from the root), Min/Max land on subtree extremes, Up after Left/Right returns); " +
 					"random walks (Next/Prev/Left/Right/Up/Min/Max/Clone, 200-2000 moves) of a population of up to 4 cursors with shadow positions, all cursors re-checked after every move; sparse-observation walks (only Valid/Key looked at after each move, the Has* predicates asked occasionally and not re-asked before the next move); cursors looked up, the tree cloned, the original modified, and the clone checked through every cursor operation; nil and invalidated cursors: every method a harmless no-op. " +
+					"Deep remnants (bulk New, then all but one root path and a few strays removed) among the shapes; during walks, Add of keys that are present (the deepest key, the key under a cursor, a random one), which is documented to leave the tree unmodified: every open cursor must go on as if nothing happened. " +
 					"distinct = hash of (shape as parent vector, walk seed); non-trivial = the shape has depth >= 4 and the walks included a Next/Prev that climbed >= 2 ancestors",
-				Required:     []string{"shapes", "next_climb_ge2", "prev_climb_ge2", "clone_moves", "invalid_cursor_probes", "absent_key_probes", "shapes_depth_ge10", "walk_moves", "empty_trees", "shapes_with_wide_comparator", "sparse_walk_moves", "clone_after_lookup_checks", "reentrant_scans", "cursors_reached_by_moves", "bulk_new_with_repeated_keys", "abandoned_scans", "scans_with_cursor_moved_inside", "very_deep_shapes", "tree_reads_with_open_cursors"},
+				Required:     []string{"shapes", "next_climb_ge2", "prev_climb_ge2", "clone_moves", "invalid_cursor_probes", "absent_key_probes", "shapes_depth_ge10", "walk_moves", "empty_trees", "shapes_with_wide_comparator", "sparse_walk_moves", "clone_after_lookup_checks", "reentrant_scans", "cursors_reached_by_moves", "bulk_new_with_repeated_keys", "abandoned_scans", "scans_with_cursor_moved_inside", "very_deep_shapes", "tree_reads_with_open_cursors", "deep_remnant_shapes", "adds_of_present_keys_with_open_cursors"},
 				Assumptions:  []string{"Cursor.Inorder is read as listing the subtree where the cursor stood when Inorder was called, also if the loop body moves that cursor", "set contents are taken from Tree.Inorder (property C01)", "the structure used as shadow model is itself read through the cursor API, and is accepted only if two independent readings agree and form a binary search tree over exactly the reference set"},
 				CoverPkgs:    []string{"github.com/creachadair/mds/stree"},
 				CoverAnchors: []string{"stree/cursor.go", "stree/stree.go:Cursor", "stree/stree.go:Root", "stree/node.go:pathTo"},
@@ -501,6 +502,25 @@ func (k *c03case) randomWalk(moves int) (climbed bool) {
 			k.t.Inorder(func(Elem) bool { return true })
 			k.c.Add("tree_reads_with_open_cursors", 1)
 		}
+		if m%37 == 23 {
+			// Add of keys that are present: documented to return false "without
+			// modifying the tree", so no cursor may notice (the deepest key, the
+			// key under a cursor, a random one)
+			deepest := 0
+			for i := range k.nodes {
+				if k.nodes[i].Depth > k.nodes[deepest].Depth {
+					deepest = i
+				}
+			}
+			for _, i := range []int{deepest, max(cu.pos, 0), k.r.IntN(n)} {
+				k.walk.add("tree.Add(%d) (present)", k.ref[i].Key)
+				if k.t.Add(k.ref[i]) {
+					k.fail("Add(%v) of a key that is present returned true", k.ref[i])
+					return
+				}
+			}
+			k.c.Add("adds_of_present_keys_with_open_cursors", 1)
+		}
 		switch mv {
 		case 0:
 			if cu.pos >= 0 {
@@ -791,7 +811,7 @@ func c03build(r *rand.Rand, beta, caseIdx int, c *fw.Ctx) (*stree.Tree[Elem], st
 	case 1:
 		n = caseIdx / 10 % 9 // includes the empty tree
 	}
-	mode := r.IntN(8)
+	mode := r.IntN(9)
 	desc := fmt.Sprintf("beta=%d n=%d mode=%d", beta, n, mode)
 	cmpElem := cmpElem
 	if r.IntN(3) == 0 {
@@ -823,6 +843,30 @@ func c03build(r *rand.Rand, beta, caseIdx int, c *fw.Ctx) (*stree.Tree[Elem], st
 		}
 		c.Add("bulk_new_with_repeated_keys", 1)
 		return stree.New(beta, cmpElem, keys...), desc + fmt.Sprintf(" (bulk New of %d keys with repeats, order %d)", len(keys), order)
+	case 8: // a deep remnant: bulk New, then everything removed except the path from the root to one key (and a few strays), as far as removals do not trigger the delete-side rebuild
+		n = max(n, 3)
+		keys := make([]Elem, n)
+		for i := range keys {
+			keys[i] = mk(i * 2)
+		}
+		t := stree.New(beta, cmpElem, keys...)
+		keep := map[int]bool{}
+		cu := t.Cursor(Elem{Key: 2 * r.IntN(n)})
+		for cu.Valid() {
+			keep[cu.Key().Key] = true
+			cu.Up()
+		}
+		floor := n*beta/2000 + 2 // removals below max*beta/2000 rebuild the whole tree
+		for _, i := range r.Perm(n) {
+			if t.Len() <= floor {
+				break
+			}
+			if !keep[2*i] && r.IntN(16) != 0 {
+				t.Remove(Elem{Key: 2 * i})
+			}
+		}
+		c.Add("deep_remnant_shapes", 1)
+		return t, desc + fmt.Sprintf(" (bulk New, then all but one root path and a few strays removed: %d keys left)", t.Len())
 	case 1: // ascending inserts
 		t := stree.New(beta, cmpElem)
 		for i := 0; i < n; i++ {
